@@ -94,7 +94,9 @@ SPEC = {
         "Typer.typeCheck_delete_others", "Typer.independent_of_other_pipelines_file",
         "Typer.whole_file_one_result_per_block", "Typer.front_error_independent_of_mode",
         "Typer.reported_entry_name_ignores_pipelines", "Typer.reported_entry_names_distinct",
-        "Typer.elabCore_depends_on_named_entries", "Typer.attributes_from_definition"]],
+        "Typer.elabCore_depends_on_named_entries", "Typer.attributes_from_definition",
+        "Typer.instancesOf_deletePipes", "Typer.independent_of_other_pipelines_module_partial",
+        "Typer.module_depends_on_instantiating_block"]],
     "harness": "c17",
     "nontrivial": nontrivial,
     "finding_key": finding_key,
